@@ -15,7 +15,7 @@ HEADER = '''/-
 
 NAMECLASS_FIELDS = ['op', 'comment', 'expr', 'not_', 'all', 'exists_', 'neNin', 'each',
                     'needsDecimal', 'operatorMap', 'logical', 'logicalConst', 'topNI', 'fieldNI',
-                    'updater', 'updateInline', 'pushMod', 'stageImpl', 'exprHit', 'exprNI',
+                    'updater', 'updateInline', 'updateChecked', 'pushMod', 'stageImpl', 'exprHit', 'exprNI',
                     'grouping', 'groupInline', 'typeImpl', 'typeNone']
 
 
@@ -61,7 +61,7 @@ def write_if_changed(path, text):
 
 
 LIST_FIELDS = ['operatorMap', 'logicalOps', 'logicalConst', 'topLevelNI', 'fieldNI', 'updaters',
-               'updateInline', 'pushModifiers', 'stagesImpl', 'stagesNone', None, 'exprNI',
+               'updateInline', 'updateChecked', 'pushModifiers', 'stagesImpl', 'stagesNone', None, 'exprNI',
                'groupingMap', 'groupInline', 'groupOperators', 'typeImpl', 'typeNone']
 
 
@@ -105,7 +105,8 @@ def name_class(T, name):
         'operatorMap': name in T['operatorMap'], 'logical': name in T['logicalOps'],
         'logicalConst': name in T['logicalConst'], 'topNI': name in T['topLevelNI'],
         'fieldNI': name in T['fieldNI'], 'updater': name in T['updaters'],
-        'updateInline': name in T['updateInline'], 'pushMod': name in T['pushModifiers'],
+        'updateInline': name in T['updateInline'],
+        'updateChecked': name in T['updateChecked'], 'pushMod': name in T['pushModifiers'],
         'stageImpl': name in T['stagesImpl'], 'exprHit': hit, 'exprNI': name in T['exprNI'],
         'grouping': name in T['groupingMap'], 'groupInline': name in T['groupInline'],
         'typeImpl': name in T['typeImpl'], 'typeNone': name in T['typeNone'],
@@ -131,8 +132,10 @@ def _class_text(c):
 CHUNK = 40
 
 
-def emit_vocab(T, entries, known_positions, known_pairs):
-    """entries: the output of extract_vocab.probe_vocab"""
+def emit_vocab(T, entries, known_pairs):
+    """entries: the output of extract_vocab.probe_vocab.  (No position is excused as a whole any
+    more: the three positions that validated nothing are repaired - 6c55e75, 1244abc, 6c1d985 -
+    and the list knownIgnoredPositions is gone from the theorems.)"""
     by_name = {}
     for e in entries:
         by_name.setdefault(e['name'], {})[e['pos']] = e['disp']
@@ -171,10 +174,6 @@ def emit_vocab(T, entries, known_positions, known_pairs):
     out.append('\n/-- all rows (%d names) -/\ndef rows : List Row := rowChunks.flatten' % len(rows))
     out.append('\n/-- the probed table: one entry per (position, name), %d entries -/' % len(entries))
     out.append('def vocab : List Entry := entriesOf rows')
-    out.append('\n/-- known findings (known_findings.json): positions at which every unknown name is '
-               'accepted silently -/')
-    out.append('def knownIgnoredPositions : List Position := [%s]' % ', '.join(
-        '.' + p for p in known_positions))
     out.append('\n/-- known findings (known_findings.json): single (position, name) pairs: %s -/'
                % comment_safe(', '.join('%s %s' % (p, n) for p, n in known_pairs)))
     out.append('def knownIgnoredPairs : List (Position × Code) := [%s]' % ', '.join(
